@@ -208,9 +208,11 @@ static void check_transition(const ClassAdapter<T>& A, PoolState<T>& P, const PO
   for (int i = 0; i < 3; ++i) {
     bool mutated = (i == o.a) || (o.kind == K_SWAP && i == o.b);
     if (!mutated && A.dump(*P.slot[i]) == pre[i]) { count(CNT_CHECKS); continue; }
-    bool okk = false; try { okk = A.ok(*P.slot[i]); } catch (...) {}
     std::unique_ptr<T> sh_own; T* sh;
     if (o.kind == K_MUT && i == o.a) sh = sa.get(); else { sh_own.reset(rbuild(A, P.rec[i])); sh = sh_own.get(); }
+    // identical full representations: same value, same validity (the rebuilt object is made by the plain operations)
+    if (A.dump(*P.slot[i]) == A.dump(*sh)) { count(CNT_CHECKS); continue; }
+    bool okk = false; try { okk = A.ok(*P.slot[i]); } catch (...) {}
     bool ok_sh = false; try { ok_sh = A.ok(*sh); } catch (...) {}
     if (!okk && ok_sh) { if (violcap().admit(A.name + "|ok|" + site + trig)) report_violation(site, "invariant:OK()-of-slot", trig, inj, "slot " + std::to_string(i) + " OK() false", "OK() true"); continue; }
     bool eq = false; try { eq = A.equal(*P.slot[i], *sh); } catch (...) {}
@@ -432,6 +434,36 @@ int main(int argc, char** argv) {
   run_class(x13::product_full_adapter<PPL::Domain_Product<PPL::NNC_Polyhedron, PPL::Grid>::Direct_Product>("Direct_Product<NNC_Polyhedron,Grid>"), depth, i123);
   run_class(x13::product_full_adapter<PPL::Domain_Product<PPL::C_Polyhedron, PPL::Grid>::Congruences_Product>("Congruences_Product<C_Polyhedron,Grid>"), depth, i123);
   run_class(x13::product_full_adapter<PPL::Domain_Product<PPL::Rational_Box, PPL::Grid>::Shape_Preserving_Product>("Shape_Preserving_Product<Rational_Box,Grid>"), depth, i123);
+#elif VF_GROUP == 11
+  run_class(x13::domain_full_adapter<PPL::BD_Shape<mpz_class> >("BD_Shape<mpz_class>"), depth, i123);
+  run_class(x13::domain_full_adapter<PPL::Octagonal_Shape<mpz_class> >("Octagonal_Shape<mpz_class>"), depth, i123);
+  run_class(x13::domain_full_adapter<PPL::BD_Shape<double> >("BD_Shape<double>"), depth, i123);
+  run_class(x13::domain_full_adapter<PPL::Box<PPL::Interval<double, PPL::Floating_Point_Box_Interval_Info> > >("Box<Interval<double>>"), depth, i123);
+#elif VF_GROUP == 12
+  { const int ir[3] = {0, 1, 2};
+    run_class(x13::constraint_adapter(), depth + deeper, ir);
+    run_class(x13::generator_adapter(), depth + deeper, ir);
+    run_class(x13::congruence_adapter(), depth + deeper, ir);
+    run_class(x13::grid_generator_adapter(), depth + deeper, ir); }
+  { const int is[3] = {1, 2, 0};
+    run_class(x13::ggsys_adapter(), depth + deeper, is);
+    run_class(x13::consys_x_adapter(), depth, is);
+    run_class(x13::gensys_x_adapter(), depth, is);
+    run_class(x13::cgsys_x_adapter(), depth, is); }
+  { const int il[3] = {1, 4, 5}; run_class(x13::linexpr_mixed_adapter(), depth, il); }    // 2A+3B (DENSE), A-C+5 (SPARSE), -4B (SPARSE)
+  { const int ii[3] = {0, 1, 2};
+    run_class(x13::interval_adapter<PPL::Rational_Interval>("Interval<mpq_class>"), depth, ii);
+    run_class(x13::interval_adapter<PPL::Interval<double, PPL::Floating_Point_Box_Interval_Info> >("Interval<double>"), depth, ii);
+    run_class(x13::checked_number_adapter<PPL::Checked_Number<mpz_class, PPL::WRD_Extended_Number_Policy>, true>("Checked_Number<mpz_class,WRD_Extended>"), depth, ii);
+    run_class(x13::checked_number_adapter<PPL::Checked_Number<mpq_class, PPL::WRD_Extended_Number_Policy>, false>("Checked_Number<mpq_class,WRD_Extended>"), depth, ii); }
+  { const int ir[3] = {0, 1, 3};
+    run_class(x13::row_adapter<PPL::Dense_Row, PPL::Sparse_Row>("Dense_Row"), depth, ir);
+    run_class(x13::row_adapter<PPL::Sparse_Row, PPL::Dense_Row>("Sparse_Row"), depth, ir); }
+  { const int im[3] = {0, 1, 2};
+    run_class(x13::matrix_adapter<PPL::Dense_Row>("Matrix<Dense_Row>"), depth, im);
+    run_class(x13::matrix_adapter<PPL::Sparse_Row>("Matrix<Sparse_Row>"), depth, im);
+    run_class(x13::bit_row_adapter(), depth + deeper, im);
+    run_class(x13::bit_matrix_adapter(), depth, im); }
 #else
 #error "VF_GROUP not set"
 #endif
